@@ -25,8 +25,10 @@ class Parameter:
     """
 
     def __init__(self, value: float, sigma: float):
-        self.samples = [value]  # list to store all samples for the parameter
-        self.sigma = sigma  # the width parameter for the proposal distribution
+        # (plain floats, as load() restores them: a numpy.float32 start value or width
+        # would make this chain compute in another precision than its reloaded copy)
+        self.samples = [float(value)]  # list to store all samples for the parameter
+        self.sigma = float(sigma)  # the width parameter for the proposal distribution
         self.rng = default_rng()
 
         # storage for proposal width adjustment algorithm
@@ -271,7 +273,7 @@ class MetropolisChain(MarkovChain):
         temperature: float = 1.0,
         display_progress: bool = True,
     ):
-        self.inv_temp = 1.0 / temperature
+        self.inv_temp = float(1.0 / temperature)  # (a plain float, as load() restores it)
         self.rng = default_rng()
 
         if posterior is not None:
